@@ -19,7 +19,7 @@ RULE = (
     "operations whose pruned graph is strictly smaller than the full graph."
 )
 ASSUMPTIONS = [
-    "bounded to the listed positive-duration families (<= 6 operations, <= 3 machines)",
+    "bounded to the listed positive-duration families (<= 6 operations, <= 3 machines; durations {1,2,3} plus three probes with durations around 2**30)",
     "semi-active schedules (what dispatching produces) contain an optimal schedule - standard result, also used by the reference optimum",
 ]
 BOUNDS = {
@@ -31,7 +31,7 @@ BOUNDS = {
 def cases(tier, seed):
     out = [("opt", s) for s in F.K3_pos()]
     out += [("opt", s) for s in F.K4_pos()]
-    out += [("opt", s) for s in F.P_ALL if not F.has_zero(s) and F.n_ops(s) <= 8]
+    out += [("opt", s) for s in F.P_ALL + F.P_HUGE if not F.has_zero(s) and F.n_ops(s) <= 8]
     if tier == "quick":
         out += [("opt", s) for s in F.family([(1, 1, 1), (2, 2)], F.MS_FX3, (1, 2))]
     if tier != "quick":
@@ -51,9 +51,13 @@ def search(res, inst, ref, filters):
     best = None
     seen = set()
     stack = [()]
+    # one dispatcher for the whole search, every node reached by reset() +
+    # replay - the way a tree search uses it (state that a filter or the
+    # dispatcher keeps across a reset would corrupt the pruned search)
+    d = impl.mk_dispatcher(inst, filters)
     while stack:
         hist = stack.pop()
-        d = impl.mk_dispatcher(inst, filters)
+        d.reset()
         impl.replay(d, hist)
         res.add("replayed_dispatches", len(hist))
         key = impl.snap_schedule(d.schedule)
